@@ -116,6 +116,12 @@ def Tr(v):
         return v.nonempty if hasattr(v, "nonempty") else z3.BoolVal(True)
     if isinstance(v, PyObj) and v.cls == "EPStack":
         return v.fields["n"] > 0
+    if isinstance(v, PyOpt):
+        return z3.And(z3.Not(v.isnone), Tr(v.some))
+    if type(v).__name__ == "PyAbsList":
+        return v.n > 0
+    if type(v).__name__ == "PyComp":
+        return v.length > 0
     if isinstance(v, PyLit):
         return LIT_TRUTHY(v.val)              # non-empty str / bytes value (uninterpreted)
     if isinstance(v, (PyObj, PyCallable, PyConst, PyGen)):
@@ -137,6 +143,9 @@ def lift(v):
 def eq(a, b):
     """Python == as a z3 Bool"""
     a, b = lift(a), lift(b)
+    if type(a).__name__ == "PyUnion" or type(b).__name__ == "PyUnion":
+        u, x = (a, b) if type(a).__name__ == "PyUnion" else (b, a)
+        return z3.Or([z3.And(u.kind == k, eq(alt, x)) for k, alt in enumerate(u.alts)])
     if isinstance(a, PyLit) and isinstance(b, PyLit):
         return z3.And(a.isbytes == b.isbytes, a.val == b.val)
     if isinstance(a, PyOpt) or isinstance(b, PyOpt):
